@@ -264,6 +264,15 @@ def _run(rec, sim, R, V, f1, f2, cl, conc, au, tr, srv):
             sim.quiesce()
             sample('after-f2')
             complete = probed and is_upgrade(f2)
+            if cl == 'never' and not complete:
+                # a handshake that went wrong stays failed whatever arrives
+                # on that socket afterwards: a (late) UPGRADE packet - which
+                # would complete the sequence if the wrong / empty frame in
+                # between had been overlooked - changes nothing
+                rec.count('late_upgrade_after_failed_handshake')
+                ws.send('5')
+                sim.quiesce()
+                sample('late-upgrade-after-failure')
             if cl == 'after2':
                 ws.close()
                 closed = True
